@@ -137,12 +137,17 @@ theorem CState.write {flags : Nat} {c : Client} {d : Device} (h : CState flags c
   have h2 : CState flags (channelsWrite c d .ack .ack).1 (channelsWrite c d .ack .ack).2.1 :=
     ⟨ackState_reanchor h1, (channelsWrite_fixed c d .ack .ack).2.1.trans h.2⟩
   have hI := h.1.inv
-  obtain ⟨-, e2⟩ := channelsWrite_ack hI h.1.dEn h.1.dDiv
+  by_cases hn : c.n = 0
+  · -- a device without channels: the write does nothing, and requested = device = []
+    refine ⟨h2, ?_, ?_, ?_⟩ <;> rw [channelsWrite_zero c d .ack .ack hn]
+    · exact hd
+    · exact (hI.nil hn).2.2.2.2.1.trans (hI.nil hn).2.1.symm
+  obtain ⟨-, e2⟩ := channelsWrite_ack hI hn h.1.dEn h.1.dDiv
   refine ⟨h2, ?_, ?_, ?_⟩
   · rw [e2]
     cases c.divSupported
-    · exact ⟨hI.lEnNew ▸ hI.n1, hI.lEnNew ▸ hI.n255, hI.lDevDiv.trans hI.lEnNew.symm, hd.2.2.2⟩
-    · exact ⟨hI.lEnNew ▸ hI.n1, hI.lEnNew ▸ hI.n255, hI.lDivNew.trans hI.lEnNew.symm, hI.rDivNew⟩
+    · exact ⟨hI.lEnNew ▸ hI.n255, hI.lDevDiv.trans hI.lEnNew.symm, hd.2.2⟩
+    · exact ⟨hI.lEnNew ▸ hI.n255, hI.lDivNew.trans hI.lEnNew.symm, hI.rDivNew⟩
   · rw [e2]
     cases c.divSupported <;> exact hI.lEnNew.trans hI.lDevEn.symm
   · rw [e2]
@@ -158,6 +163,28 @@ theorem doWrite_synced {n flags : Nat} {w : World} (hh : w.hasDev = true) (hd : 
   obtain ⟨h1, h2, h3, -⟩ := hS.write hd.1
   rw [e]
   exact ⟨⟨h2, h3.trans hd.2⟩, _, rfl, h1⟩
+
+/-- on a handler whose client agrees with the device a write does not raise -/
+theorem doWrite_ok {flags : Nat} {w : World} (hh : w.hasDev = true) (hs : Synced flags w) :
+    (doWrite w).2 = .ok := by
+  obtain ⟨c, hc, hS⟩ := hs
+  have he := channelsWrite_noerr hS.1.inv .ack .ack
+  unfold doWrite
+  rw [hh, hc]
+  dsimp only
+  rw [he]
+  rfl
+
+/-- … nor does a buffered "all" call followed by a write (`ch_disable_all(True)`, `channels_default_cfg`):
+    these setters cannot fail, and the write is built from well-formed vectors -/
+theorem cfgCall_disableAll_ok {flags : Nat} {w : World} (hh : w.hasDev = true) (hs : Synced flags w) :
+    (cfgCall w .disableAll true).2 = .ok := by
+  obtain ⟨c, hc, hS⟩ := hs
+  have e : cfgCall w .disableAll true = doWrite { w with cli := some (Config.step c w.dev .disableAll).1 } := by
+    unfold cfgCall; rw [hc]; rfl
+  rw [e]
+  exact doWrite_ok (flags := flags) (w := { w with cli := some (Config.step c w.dev .disableAll).1 }) hh
+    ⟨_, rfl, hS.setter .disableAll (fun a b e => nomatch e)⟩
 
 theorem cfgCall_synced {n flags : Nat} {w : World} (op : Op) (wn : Bool) (hop : ∀ a b, op ≠ .write a b)
     (hh : w.hasDev = true) (hd : DevOK n w.dev) (hs : Synced flags w) :
@@ -204,8 +231,10 @@ theorem step_connect (w : World) : step w .connect =
 
 theorem step_disconnect (w : World) : step w .disconnect =
     if w.connected then
-      ({ commDisconnect (if (streamStop w).hasDev then cfgCall (streamStop w) .disableAll true
-                         else (streamStop w, .raised .assertion)).1 with connected := false }, .ok)
+      match (if (streamStop w).hasDev then cfgCall (streamStop w) .disableAll true
+             else (streamStop w, .raised .assertion)) with
+      | (w2, .raised e) => (w2, .raised e)
+      | (w2, .ok) => ({ commDisconnect w2 with connected := false }, .ok)
     else (w, .ok) := rfl
 
 theorem step_connect_idem (w : World) (h : w.connected = true) : step w .connect = (w, .ok) := by
@@ -365,11 +394,15 @@ theorem on_disconnect {n flags : Nat} {w : World} (h : LInv n flags w) (hon : On
   obtain ⟨h2, o2⟩ := on_cfg h1 o1 .disableAll true (fun a b e => nomatch e)
   have hF := cfgCall_frame (streamStop w) .disableAll true
   have hen := cfgCall_disableAll_dev hh h1.dev.1 o1.2.2.2.2.2.2.2
+  -- in a reachable world the write cannot raise, so the disconnect goes through
+  have hok := cfgCall_disableAll_ok hh o1.2.2.2.2.2.2.2
   rw [step_disconnect, hon.1, hh]
   simp only [↓reduceIte]
   generalize cfgCall (streamStop w) .disableAll true = r at *
   obtain ⟨w2, res⟩ := r
   dsimp only at *
+  subst hok
+  dsimp only
   have e : commDisconnect w2 =
       { w2 with recvThr := false, intf := false, time := w2.time + drain,
                 commStarted := false, hasDev := false } := by
